@@ -619,6 +619,12 @@ func (d *diffEnv) stepOn(ci int, args []string) (resp.Value, bool) {
 		r.Count("queue_time_argument_rejections", 1)
 		exp = model.AnyErr()
 	}
+	if got.IsError() && strings.Contains(string(got.Str), "internal error while processing") && !(d.collisionBits >= 31) && exp.Err == "" {
+		// the emulator's dispatcher turns a panicking handler into this reply: whatever the model thinks of the command
+		// (also where it has no opinion), a handler that panicked is not Redis behaviour
+		diverged = true
+		r.Report(fmt.Sprintf("%s/%s/handler-panicked/%s", d.monitor, tag, prior), fmt.Sprintf("%s (key was %s): the command handler panicked (reply %s)", cmdString(args), prior, got), d.replay(map[string]any{"command": args, "got": got.String()}))
+	}
 	if ambiguous {
 		r.Count("ambiguous_time_steps", 1)
 	} else if why := model.Match(exp, got); why != "" {
